@@ -108,6 +108,7 @@ func c02Families(quick bool) c02Params {
 	if quick {
 		return c02Params{sets: []fam{
 			{"r1-s3", &lexref.RuleSets{Pools: []*lexref.Pool{p3}, Kinds: 2}, 0},
+			{"r1-s4", &lexref.RuleSets{Pools: []*lexref.Pool{p4}, Kinds: 2}, 0},
 			{"r2-s2", &lexref.RuleSets{Pools: []*lexref.Pool{p2, p2}, Kinds: 2}, 0},
 			{"r2-s3s1", &lexref.RuleSets{Pools: []*lexref.Pool{p3, p1}, Kinds: 2}, 0},
 			{"r3-s1", &lexref.RuleSets{Pools: []*lexref.Pool{p1, p1, p1}, Kinds: 2}, 0},
@@ -115,6 +116,7 @@ func c02Families(quick bool) c02Params {
 	}
 	return c02Params{sets: []fam{
 		{"r1-s4", &lexref.RuleSets{Pools: []*lexref.Pool{p4}, Kinds: 2}, 0},
+		{"r1-s5", &lexref.RuleSets{Pools: []*lexref.Pool{lexref.NewPool(leaves, cards, 5)}, Kinds: 2}, 60000},
 		{"r2-s2", &lexref.RuleSets{Pools: []*lexref.Pool{p2, p2}, Kinds: 2}, 0},
 		{"r2-s3", &lexref.RuleSets{Pools: []*lexref.Pool{p3, p3}, Kinds: 2}, 300000},
 		{"r2-s3s2-rev", &lexref.RuleSets{Pools: []*lexref.Pool{p2, p3}, Kinds: 2}, 0},
@@ -322,7 +324,7 @@ func init() {
 	mc.Register(&mc.Check{
 		ID:    "C02",
 		Level: "model_checking",
-		Rule: "rule sets: every specification of 1-3 rules (token or @frag @discard) whose expressions are drawn from the pool of all regexes up to a size bound over the leaves {'a','b','ab',[a],[ab],[a-c],~[a],[a-c]-[b],.} with ? * + | concatenation and grouping (counter-enumerated); kept if greedy, no empty class, no rule matching the empty string; " +
+		Rule: "rule sets: every specification of 1-3 rules (token or @frag @discard; single rules up to 4 nodes in the quick tier) whose expressions are drawn from the pool of all regexes up to a size bound over the leaves {'a','b','ab',[a],[ab],[a-c],~[a],[a-c]-[b],.} with ? * + | concatenation and grouping (counter-enumerated); kept if greedy, no empty class, no rule matching the empty string; " +
 			"plus the range-algebra family: every specification of 3 rules that are each one range over the points a..f and of 4 rules over a..e (thorough: 4 over a..f, 5 over a..d), i.e. every way ranges nest, overlap, coincide with the remainder of a split and are split again, in every order; and the macro family: @macro bodies from the pool, used in two rules, twice in one rule, nested in a second macro, under ? * +, in a discarding fragment; " +
 			"each: breadth-first search of the product (real _LexerStateMachine with the spec's emitted tables) x (tuple of Brzozowski derivatives) over both end points and a middle point of every atom of the spec's classes plus EOF - a finite graph, so event streams agree for inputs of every length up to the first error; " +
 			"then every string of up to L symbols (ASCII, 2/3/4-byte code points, invalid UTF-8 bytes) through the real simplelexer driver, comparing token type, text span and position; states/transitions = product nodes/edges; non-trivial = spec with > 3 product states",
